@@ -1444,6 +1444,7 @@ class QueryBuilder(Selectable, Term):  # type:ignore[misc]
                 ]
             ),
             with_alias=False,
+            subcriterion=False,
         )
 
         if self._update_table:
